@@ -34,7 +34,10 @@
 EXTENDS PipelineGraphMC     \* = PipelineGraph + the named universes / connector support table
 
 CONSTANTS ExtIds,      \* extension ids
-          MaxFail      \* bound on |failStart| + |failShut|
+          MaxFail,     \* bound on |failStart| + |failShut|
+          ReceiversLast  \* FALSE: graph.StartAll as it is in the pinned tree (any reverse topological order)
+                         \* TRUE : the repaired StartAll (fixes/C10-*.patch): receiver nodes are started after every
+                         \*        other node, still in reverse topological order otherwise
 
 VARIABLES exts, deps, shared, failStart, failShut,   \* configuration part (frozen at Freeze)
           phase,       \* "config" | "extStart" | "nodeStart" | "running" | "aborted" | "nodeStop" | "extStop" | "done"
@@ -129,6 +132,9 @@ MayStopExt(x)   == /\ stops[ExtN(x)] = 0
 \* the inner object of a shared receiver: started / stopped at most once, inside a call on one of its nodes
 SharedNodes(r)    == {n \in Comps : n[1] = "receiver" /\ n[3] = r}
 MayStartInner(r)  == starts[InnerN(r)] = 0 /\ \E n \in SharedNodes(r) : starts[n] > 0 /\ startRes[n] = "none"
+\* ... and, being ONE component that sends data into the pipelines of ALL its signals, only after the components
+\* it sends data to -- for every signal -- have started
+SharedDownstreamStarted(r) == \A n \in SharedNodes(r) : \A m \in SendsTo(n) : StartedOK(m)
 MayStopInner(r)   == stops[InnerN(r)] = 0 /\ \E n \in SharedNodes(r) : stops[n] > 0 /\ stopRes[n] = "none"
 
 \* what must hold when the service lifetime is over (service.Shutdown has returned)
@@ -187,7 +193,9 @@ StartCall(n) ==
 
 \* graph.StartAll: reverse topological order of the node graph, Start on component nodes, return at the first error
 NodeStart(n) == /\ phase = "nodeStart"
-                /\ LET E == Edges IN n \in NodesOf(E) \ visS /\ SuccIn(E, n) \subseteq visS
+                /\ LET E == Edges IN /\ n \in NodesOf(E) \ visS /\ SuccIn(E, n) \subseteq visS
+                                     /\ (ReceiversLast /\ n[1] = "receiver") =>
+                                            \A m \in NodesOf(E) : m[1] # "receiver" => m \in visS
                 /\ visS' = visS \cup {n}
                 /\ IF IsComponent(n)
                    THEN /\ StartCall(n)
@@ -259,7 +267,10 @@ StartOrder == [][Live => \A n \in Comps : (starts'[n] > starts[n]) => MayStartNo
 ExtFirst   == [][Live => \A x \in exts : (starts'[ExtN(x)] > starts[ExtN(x)]) => MayStartExt(x)]_lvars
 StopOrder  == [][Live => \A n \in Comps : (stops'[n] > stops[n]) => MayStopNode(n)]_lvars
 ExtLast    == [][Live => \A x \in exts : (stops'[ExtN(x)] > stops[ExtN(x)]) => MayStopExt(x)]_lvars
-\* shared inner object: (the guard is evaluated in the post-state of the wrapper call because wrapper and inner call are one step here)
+\* the inner object of a shared receiver is started only when the consumers of all its signals have started.
+\* Holds for the repaired StartAll (ReceiversLast = TRUE) only: in the pinned tree the first node of the receiver that
+\* the (map-ordered) topological sort happens to visit starts the inner object -- see findings / fixes for C10.
+SharedStartOrder == [][Live => \A r \in SharedUsed : (starts'[InnerN(r)] > starts[InnerN(r)]) => SharedDownstreamStarted(r)]_lvars
 SharedOnce == Live => (\A r \in SharedUsed : starts[InnerN(r)] <= 1 /\ stops[InnerN(r)] <= 1)
 AtMostOnce == Live => (\A n \in Ents : starts[n] <= 1 /\ stops[n] <= 1)
 \* nothing is shut down while start-up is still in progress, nothing is started after shutdown began
